@@ -417,7 +417,7 @@ func runLocks(a *Analyzer, r *Results) {
 							why = "accessed in " + funcID(f) + " without taking the lock"
 						}
 					}
-					r.Check("L.lock", props("C13", "C15"), "every access to the mutex-guarded fields of State / ViewContexts / InMemoryStorage happens under the lock (Lock + deferred Unlock in the method, or in a helper whose callers all hold it)",
+					r.Check("L.lock", props("C13", "C15", "C12"), "every access to the mutex-guarded fields of State / ViewContexts / InMemoryStorage happens under the lock (Lock + deferred Unlock in the method, or in a helper whose callers all hold it)",
 						g.typ+"."+name+"|"+shortName(f), a.P.InstrPos(in), ok2, why, "L")
 				}
 			}
